@@ -460,8 +460,8 @@ def run_conc(res, binp, mode, acceptor, seed, total, extra=(), tag=None, label=N
                 res.add(Problem("correspondence", f"{label}: implementation trace rejected by the Lean model",
                                 {"reject": line, "replay_cmd": o["cmd"], "note": "run index within the shard = REJECT number - 1 + first"}, key=line[:200]))
         for k, rest in o["monfail"]:
-            mm = re.match(r"FAIL (C\d+) (.*)", rest)
-            if mm and tag and mm.group(1) != tag:
+            mm = re.match(r"FAIL (C\d+(?:,C\d+)*) (.*)", rest)
+            if mm and tag and tag not in mm.group(1).split(","):
                 continue
             agg["monitor_failures"] += 1
             if agg["monitor_failures"] <= 30:
